@@ -10,6 +10,29 @@ LEVEL_NOTE = ("Trusted: Coq 8.16.1 kernel; no axioms (Print Assumptions of each 
               "the code by differential execution on every run, which samples and does not prove. ")
 
 CLAIMS = {
+    "C07": dict(
+        technique="Coq proof (case analysis of the check phase against the admission rule with glob-based mask semantics; symbolic execution of the one-channel command) + 512-cell admission sweep against the real server with a rule oracle",
+        text="Theorems (props/C07.v) for ALL states, users, keys and configurations: the check phase of JOIN accepts an existing channel for a non-member iff key equals +k when set, no ban mask "
+             "globs the source unless an exception mask does, the channel is not +i or the user is invited or an invite-exception globs the source, and the member count is below +l; on refusal "
+             "it reports exactly the first failing condition (475, 474, 473, 471); the whole one-channel command succeeds iff that rule and the max_joins quota hold, success inserts the member "
+             "with the configured default ranks and consumes the invitation, refusal leaves the shared state identical, tells nobody else and answers the sender with a non-empty list. Comma "
+             "lists are the entry-wise application of the same plan (C07_accepted_effect / C07_refused_effect). Conditional on the handler returning Ok (no-Panic is C05).",
+        design_ref="5 (C07)"),
+    "C09": dict(
+        technique="Coq proof (fold invariant over the victim loop: selected = named members the actor's rank may remove, duplicate-free; case analysis of TOPIC and INVITE) + 32x32 rank sweep against the real server with a rank-rule oracle",
+        text="Theorems (props/C09.v) for ALL states and rank combinations: KICK selects exactly the named members that are neither founder nor protected and, for a mere half-operator, not "
+             "half-operator or above - a duplicate-free list, so absent/repeated names are harmless - and selects nobody for an absent channel (403), an outsider (442) or a rank below half-operator (482), "
+             "in which case nothing changes; the new state is the removal of the selected victims through remove_user_from_channel; TOPIC is set only by a member and on +t only by half-operator or "
+             "above, stored with the setter's nick (empty text clears) and relayed to every member; INVITE is honoured only from a member (operator flag on +i) for a registered non-member, records "
+             "the invitation and reaches exactly the invited user; every refusal leaves the state identical.",
+        design_ref="5 (C09)"),
+    "C16": dict(
+        technique="Coq proof (channel creation, removal of the last member, configured channels at start-up and default ranks on join) + create-use-empty-recreate life-cycle sweep over six ways of leaving against the real server",
+        text="Theorems (props/C16.v) for ALL states/configurations: a JOIN to an absent name is always (join, create) and inserts the fresh channel - no topic, key, limit, lists or flags, the joiner "
+             "founder+operator; remove_user_from_channel of the only member (the single path used by PART, KICK and every session end) deletes an ordinary channel and keeps a preconfigured one, "
+             "empty, with its topic; with another member present the channel stays; init contains every configured channel with the configured topic/flags/key/limit/lists, empty, marked "
+             "preconfigured, rank lists moved to defaults; a joiner of an existing channel gets exactly the ranks the defaults list for its nick.",
+        design_ref="5 (C16)"),
     "C01": dict(
         technique="Coq proof over the handler model (per-target delivery = duplicate-free audience list minus the sender, via Forall2/NoDup) + differential traces and an audience oracle on the implementation's own state",
         text="Theorems (props/C01.v) about the Gallina model of process_privmsg_notice, for ALL shared states, connections, target lists and texts: an accepted channel target queues "
